@@ -100,8 +100,8 @@ PROPS["C07"] = {
                 "columns, read-index assignment across files): parse_tx_csv sits behind csv::Reader, not encodable"),
 }
 PROPS["C11"] = {
-    "quick": [{"name": "struct", "harnesses": ["c11_roundtrip_buy_sell", "c11_roundtrip_roc_sfla_split"], "jobs": 2}],
-    "thorough": [{"name": "struct", "harnesses": ["c11_roundtrip_buy_sell", "c11_roundtrip_roc_sfla_split"], "jobs": 2}],
+    "quick": [{"name": "struct", "harnesses": ["c11_roundtrip_buy_sell", "c11_roundtrip_roc_sfla_split"], "jobs": 2, "mem_gb": 30}],
+    "thorough": [{"name": "struct", "harnesses": ["c11_roundtrip_buy_sell", "c11_roundtrip_roc_sfla_split"], "jobs": 2, "mem_gb": 30}],
     "functions": ["Tx::to_csvtx", "populate_csvtx_fields_from_action_specifics", "<Tx as TryFrom<CsvTx>>::try_from",
                   "buy_or_sell_common_attrs_from_csv_tx", "get_valid_exchange_rate", "CurrencyAndExchangeRate::try_new"],
     "bounds": ("every action; shares/price/commission/amounts 16-bit mantissas at scales 2-4; CAD or USD with symbolic "
